@@ -90,6 +90,7 @@ import JdProofs.V1KeysDiffPatchB
 import JdProofs.V1KeysDiffPatchA
 import JdProofs.V1Precision
 import JdProofs.OptSites
+import JdProps.C17Precision
 
 set_option autoImplicit false
 
